@@ -299,6 +299,14 @@ def lex_case(dt, lex):
     again = str.__str__(Literal(norm, datatype=dturi))
     if again != norm:
         out.append(("normalisation|%s|not-idempotent|%s" % (fam, cls), {"datatype": dt, "lexical": lex, "normalised": norm, "again": again}))
+    # the same lexical form handed over as bytes is the same literal
+    try:
+        lb = Literal(lex.encode("utf-8"), datatype=dturi)
+        if str.__str__(lb) != norm or lb.ill_typed != lit.ill_typed or not X.same_value(lb.value, lit.value):
+            out.append(("lexical->value|%s|bytes-lexical-form-gives-another-literal|%s" % (fam, cls),
+                        {"datatype": dt, "lexical": lex, "from_str": [norm, repr(lit.value)], "from_bytes": [str.__str__(lb), repr(lb.value)]}))
+    except Exception as e:  # noqa: BLE001
+        out.append(("lexical->value|%s|bytes-lexical-form-raises|%s" % (fam, type(e).__name__), {"datatype": dt, "lexical": lex, "exc": repr(e)[:200]}))
     return out
 
 
